@@ -86,7 +86,7 @@ func runC17(w *mon.Worker) {
 	w.AddCounter("enumerated_subspace_cases", enumerated)
 	// sampled: perturbation on, larger n, waits, delays, caller cancellation
 	mon.SetProb(0.3, verifhook.BcastEnter, verifhook.BcastExit, verifhook.CcallSpawned)
-	for i := 0; i < w.Share(w.Scale(12000, 3000000)); i++ {
+	for i := 0; i < w.Share(w.Scale(12000, 9000000)); i++ {
 		r := w.Rng
 		n := 1 + r.IntN(7)
 		sc := ccScript{Gate: r.IntN(4) == 0}
